@@ -113,53 +113,71 @@ Definition c12_py_default_pd : parsed :=
                       scomments := []; sdecs := []; sredacted := false |}];
      p_enums := []; p_aliases := []; p_consts := []; p_type_names := []; p_errors := []; p_imports := [] |}.
 
-Theorem c12_python_alias_typevar_refuted :
-  c12_py_known c12_py_cfg0 c12_py_alias_pd = Some "C12-python-alias-typevar"%string /\
+(* The two classes these inputs witnessed are FIXED in /repo (write_type_alias declares the alias's parameters as
+   TypeVars and prints a plain assignment; write_field registers the type the translation was found for).
+   Regression pins: the exact text of each former witness through the model, its observation, the verdict. *)
+Definition c12_py_alias_text : str :=
+  lit "from __future__ import annotations" ++ [10; 10] ++
+  lit "from typing import List, TypeVar" ++ [10; 10] ++
+  lit "T = TypeVar(""T"")" ++ [10; 10; 10] ++
+  lit "GA = List[T]" ++ [10; 10].
+Theorem c12_python_alias_typevar_fixed :
+  c12_py_known c12_py_cfg0 c12_py_alias_pd = None /\
   c12_py_dom c12_py_cfg0 (items_of c12_py_alias_pd) = true /\
-  exists uses defs, c12_py_observe uc_exec c12_py_cfg0 c12_py_alias_pd = Ok (uses, defs) /\
-                    In (lit "T") uses /\ ~ In (lit "T") defs /\ c12_good uses defs = false.
-Proof.
-  split; [vm_compute; reflexivity|]. split; [vm_compute; reflexivity|].
-  eexists. eexists. split; [vm_compute; reflexivity|].
-  split; [vm_compute; auto|]. split; [|vm_compute; reflexivity].
-  intros H. vm_compute in H. repeat (destruct H as [H|H]; [discriminate H|]). exact H.
-Qed.
+  py_generate uc_exec c12_py_cfg0 c12_py_alias_pd = Ok c12_py_alias_text /\
+  c12_py_observe uc_exec c12_py_cfg0 c12_py_alias_pd =
+    Ok ([lit "TypeVar"; lit "List"; lit "T"], [lit "T"; lit "List"; lit "TypeVar"]) /\
+  c12_good [lit "TypeVar"; lit "List"; lit "T"] [lit "T"; lit "List"; lit "TypeVar"] = true.
+Proof. repeat split; vm_compute; reflexivity. Qed.
 
-Theorem c12_python_default_translation_refuted :
-  c12_py_known c12_py_cfg0 c12_py_default_pd = Some "C12-python-default-translation"%string /\
+Definition c12_py_default_text : str :=
+  lit "from __future__ import annotations" ++ [10; 10] ++
+  lit "from datetime import datetime" ++ [10] ++
+  lit "from pydantic import BaseModel, BeforeValidator, Field, PlainSerializer" ++ [10] ++
+  lit "from typing import Annotated, Optional" ++ [10; 10; 10] ++
+  py_ser_content py_datetime_translation ++ [10; 10] ++ py_de_content py_datetime_translation ++ [10; 10] ++
+  lit "class S(BaseModel):" ++ [10] ++
+  lit "    at: Annotated[Optional[datetime], BeforeValidator(parse_rfc3339), PlainSerializer(serialize_datetime_data)] = Field(default=None)" ++
+  [10; 10].
+Definition c12_py_default_uses : list str :=
+  [lit "datetime"; lit "BaseModel"; lit "Optional"; lit "datetime"; lit "Annotated"; lit "BeforeValidator";
+   lit "PlainSerializer"; lit "parse_rfc3339"; lit "serialize_datetime_data"; lit "Field"].
+Definition c12_py_default_defs : list str :=
+  [lit "serialize_datetime_data"; lit "parse_rfc3339"; lit "datetime"; lit "BaseModel"; lit "BeforeValidator"; lit "Field";
+   lit "PlainSerializer"; lit "Annotated"; lit "Optional"].
+Theorem c12_python_default_translation_fixed :
+  c12_py_known c12_py_cfg0 c12_py_default_pd = None /\
   c12_py_dom c12_py_cfg0 (items_of c12_py_default_pd) = true /\
-  exists uses defs, c12_py_observe uc_exec c12_py_cfg0 c12_py_default_pd = Ok (uses, defs) /\
-                    In (lit "parse_rfc3339") uses /\ ~ In (lit "parse_rfc3339") defs /\ c12_good uses defs = false.
-Proof.
-  split; [vm_compute; reflexivity|]. split; [vm_compute; reflexivity|].
-  eexists. eexists. split; [vm_compute; reflexivity|].
-  split; [vm_compute; auto 20|]. split; [|vm_compute; reflexivity].
-  intros H. vm_compute in H. repeat (destruct H as [H|H]; [discriminate H|]). exact H.
-Qed.
+  py_generate uc_exec c12_py_cfg0 c12_py_default_pd = Ok c12_py_default_text /\
+  contains_sub (lit "def parse_rfc3339(date_str: str) -> datetime:") c12_py_default_text = true /\
+  contains_sub (lit "def serialize_datetime_data(utc_time: datetime) -> str:") c12_py_default_text = true /\
+  c12_py_observe uc_exec c12_py_cfg0 c12_py_default_pd = Ok (c12_py_default_uses, c12_py_default_defs) /\
+  c12_good c12_py_default_uses c12_py_default_defs = true.
+Proof. repeat split; vm_compute; reflexivity. Qed.
 
 Example c12_python_nonvacuous :
-  c12_py_known c12_py_cfg0 c12_nonvac_pd = None /\ c12_py_dom c12_py_cfg0 (items_of c12_nonvac_pd) = true /\
+  c12_py_dom c12_py_cfg0 (items_of c12_nonvac_pd) = true /\
   exists uses defs, c12_py_observe uc_exec c12_py_cfg0 c12_nonvac_pd = Ok (uses, defs) /\
                     In (lit "Dict") uses /\ c12_good uses defs = true.
 Proof.
-  split; [vm_compute; reflexivity|]. split; [vm_compute; reflexivity|].
+  split; [vm_compute; reflexivity|].
   eexists. eexists. split; [vm_compute; reflexivity|]. split; [vm_compute; auto 20|vm_compute; reflexivity].
 Qed.
 
 (* ---- Python, the whole file: header (TypeVar lines, helper functions) + body ---- *)
 From TS Require Import Proofs.C12_Python.
 Theorem c12_python uc cfg pd uses defs :
-  c12_py_observe uc cfg pd = Ok (uses, defs) -> c12_py_dom cfg (items_of pd) = true -> c12_py_known cfg pd = None ->
+  c12_py_observe uc cfg pd = Ok (uses, defs) -> c12_py_dom cfg (items_of pd) = true ->
   c12_good uses defs = true.
 Proof.
-  unfold c12_py_observe. intros H Hdom Hk. apply c12_bind_ok in H as ([ds st] & E & H).
-  injection H as <- <-. cbn [fst snd]. apply c12_good_spec. exact (c12_py_file uc cfg pd ds st E Hdom Hk).
+  unfold c12_py_observe. intros H Hdom. apply c12_bind_ok in H as ([ds st] & E & H).
+  injection H as <- <-. cbn [fst snd]. apply c12_good_spec. exact (c12_py_file uc cfg pd ds st E Hdom).
 Qed.
 
-(* non-vacuity: a generic struct S<T> next to a generic alias GA<T> (the struct declares T), a
-   serde(default) OffsetDateTime field next to a plain one (the plain one registers `datetime`), a
-   serde(default) Vec<u8> field mapped to `bytes` whose plain text is registered two levels deep
-   (Option<Option<Vec<u8>>>) by the formatter itself: every half of the theorem is exercised *)
+(* non-vacuity: a generic struct S<T> next to a generic alias GA<T> (both declare T) and a generic alias GB<U> whose
+   parameter nothing else declares, a serde(default) OffsetDateTime field next to a plain one (both register
+   `datetime`), a serde(default) Vec<u8> field mapped to `bytes` next to one two levels deep
+   (Option<Option<Vec<u8>>>, registered by the formatter itself): every half of the theorem is exercised *)
 Definition c12_py_cfg1 : py_config :=
   {| py_type_mappings := [(lit "Vec<u8>", lit "bytes")]; py_no_version_header := true; py_version := [] |}.
 Definition c12_py_full_pd : parsed :=
@@ -174,17 +192,19 @@ Definition c12_py_full_pd : parsed :=
                       scomments := []; sdecs := []; sredacted := false |}];
      p_enums := [];
      p_aliases := [{| aid := c12_mkid (lit "GA"); agenerics := [lit "T"]; atype := RVec (RSimple (lit "T"));
+                      acomments := []; adecs := []; aredacted := false |};
+                   {| aid := c12_mkid (lit "GB"); agenerics := [lit "U"]; atype := RVec (RSimple (lit "U"));
                       acomments := []; adecs := []; aredacted := false |}];
      p_consts := []; p_type_names := []; p_errors := []; p_imports := [] |}.
 
 Example c12_python_file_nonvacuous :
-  c12_py_known c12_py_cfg1 c12_py_full_pd = None /\ c12_py_dom c12_py_cfg1 (items_of c12_py_full_pd) = true /\
+  c12_py_dom c12_py_cfg1 (items_of c12_py_full_pd) = true /\
   exists uses defs, c12_py_observe uc_exec c12_py_cfg1 c12_py_full_pd = Ok (uses, defs) /\
-                    In (lit "T") uses /\ In (lit "TypeVar") uses /\ In (lit "parse_rfc3339") uses /\
+                    In (lit "T") uses /\ In (lit "U") uses /\ In (lit "TypeVar") uses /\ In (lit "parse_rfc3339") uses /\
                     In (lit "deserialize_binary_data") uses /\ In (lit "datetime") uses /\
                     c12_good uses defs = true.
 Proof.
-  split; [vm_compute; reflexivity|]. split; [vm_compute; reflexivity|].
+  split; [vm_compute; reflexivity|].
   eexists. eexists. split; [vm_compute; reflexivity|].
   repeat split; try (vm_compute; reflexivity); apply c12_mem_str_In; vm_compute; reflexivity.
 Qed.
